@@ -1512,6 +1512,22 @@ func (fv *FV) ghostBuiltin(e *Env, x *ast.CallExpr, fn *types.Func) Value {
 		v := fv.spec.callArgs[n]
 		v.Type = rt
 		return v
+	case "gh_btHas", "gh_btNil", "gh_btBytes":
+		// ghost view of a btree.Map[string, []byte] (see the library model)
+		m := fv.expr(e, x.Args[0])
+		k := fv.expr(e, x.Args[1])
+		present := sel(fv.loadComp(e, "BT$dom", arrSort(sStr, sBool), m.T), k.T)
+		if name == "gh_btHas" {
+			return Value{K: kScalar, T: present}
+		}
+		arr := sel(fv.loadComp(e, "BT$arr", arrSort(sStr, sRef), m.T), k.T)
+		off := sel(fv.loadComp(e, "BT$off", arrSort(sStr, sInt), m.T), k.T)
+		ln := sel(fv.loadComp(e, "BT$len", arrSort(sStr, sInt), m.T), k.T)
+		sv := Value{K: kSlice, T: arr, Off: off, Len: ln, Cap: ln}
+		if name == "gh_btNil" {
+			return Value{K: kScalar, T: sliceIsNil(sv)}
+		}
+		return Value{K: kScalar, T: fv.bytesID(e, sv)}
 	case "gh_sameRef":
 		a, b := fv.expr(e, x.Args[0]), fv.expr(e, x.Args[1])
 		return Value{K: kScalar, T: eq(a.T, b.T)}
